@@ -284,6 +284,66 @@ def rule_r5(rep, repo):
         return [x for st in stmts for x in ast.walk(st)
                 if isinstance(x, ast.Assign) and isinstance(x.targets[0], ast.Subscript) and norm(x.targets[0].value) == cvar]
     br = next((s_ for s_ in body if isinstance(s_, ast.If) and stores_in([s_])), None)
+    if br is None and not stores_in(body):
+        # idiom C: the look-up lives in a private method that receives the cache,
+        #     def _get(self, C, k, ...):  if k in C: return C[k];  <load>;  [if cache:] C[k] = S;  return V
+        # transparent iff the hit returns the entry itself and V == S on the miss
+        for c_ in ast.walk(f.node):
+            if isinstance(c_, ast.Call) and isinstance(c_.func, ast.Attribute) and norm(c_.func.value) == "self" and \
+                    any(norm(a_) == cvar for a_ in c_.args):
+                h = repo.resolve_method("AngularGrid", c_.func.attr)
+                if h is None:
+                    continue
+                hp = [p_ for p_ in h.params if p_ != "self"]
+                pc = dict(zip([norm(a_) for a_ in c_.args], hp)).get(cvar)
+                hb = strip_docstring(h.node.body)
+                if pc is None or not hb or not isinstance(hb[0], ast.If):
+                    continue
+                t0 = hb[0].test
+                if not (isinstance(t0, ast.Compare) and len(t0.ops) == 1 and isinstance(t0.ops[0], ast.In) and
+                        norm(t0.comparators[0]) == pc and len(hb[0].body) == 1 and isinstance(hb[0].body[0], ast.Return)
+                        and not hb[0].orelse):
+                    continue
+                kexpr = norm(t0.left)
+                cons_h = f"angular.AngularGrid.{h.name}"
+                if norm(hb[0].body[0].value) != f"{pc}[{kexpr}]":
+                    rep.violation("R5.cache-transparent", cons_h, "hit",
+                                  f"on a cache hit `{norm(hb[0].body[0].value)[:60]}` is returned, not the stored entry itself",
+                                  repo.rel("angular", hb[0]))
+                    return
+                vg = e5.VG(repo, "AngularGrid", h.node)
+                stored, final = [], None
+
+                def walk_h(stmts):
+                    nonlocal final
+                    for st in stmts:
+                        if isinstance(st, ast.If) and any(isinstance(x, ast.Assign) and isinstance(x.targets[0], ast.Subscript)
+                                                          and norm(x.targets[0].value) == pc for x in ast.walk(st)):
+                            walk_h(st.body)
+                            walk_h(st.orelse)
+                            continue
+                        if isinstance(st, ast.Assign) and isinstance(st.targets[0], ast.Subscript) and norm(st.targets[0].value) == pc:
+                            if norm(st.targets[0].slice) != kexpr:
+                                rep.violation("R5.cache-transparent", cons_h, "store-key",
+                                              f"the entry is stored under `{norm(st.targets[0].slice)}` but looked up under `{kexpr}`",
+                                              repo.rel("angular", st))
+                            stored.append((vg.ev(st.value), st))
+                            continue
+                        if isinstance(st, ast.Return) and st.value is not None:
+                            final = vg.ev(st.value)
+                            continue
+                        vg.stmt(st)
+                walk_h(hb[1:])
+                if not stored or final is None:
+                    raise AnalysisError(f"unrecognised idiom: {cons_h} does not store into its cache parameter and return")
+                if stored[-1][0] == final:
+                    rep.ok("R5.cache-transparent", f"AngularGrid.{h.name}", repo.rel("angular", stored[-1][1]),
+                           "hit returns the entry, miss returns exactly what it stores")
+                else:
+                    rep.violation("R5.cache-transparent", cons_h, "miss",
+                                  f"on a miss `{e5.show(final, 80)}` is returned but `{e5.show(stored[-1][0], 80)}` is stored: a grid "
+                                  f"served from the cache differs from a freshly loaded one", repo.rel("angular", stored[-1][1]))
+                return
     if br is None:
         if stores_in(body):
             raise AnalysisError(f"unrecognised idiom: the store into {cvar} is not under a cache-miss test")
